@@ -103,6 +103,15 @@ CHECKS = {
              "Trusted: Coq kernel, hand-written Model/Window.v (tied by correspondence), as_strided/ascontiguousarray semantics, harness. No axioms.",
         technique="Coq proof (lia/nia + list induction) + exhaustive/random configuration correspondence evaluated by vm_compute",
     ),
+    "C17": dict(
+        text="Machine-checked proofs (Coq) of every sentence of the property on the decision model Model/Construct.v of tensor()/Tensor()/astensor()/copy()/astype(): default copies, copy=False and astensor reuse memory "
+             "whenever no dtype change is needed and never otherwise, astensor(t) is t when dtype and flag match and a new tensor on the same memory when only the flag differs, copy()/astype() results are detached. Tie: the COMPLETE "
+             "lattice (5 functions x source kind x source dtype x dtype argument x constant x copy x ndmin x graph state, ~800 cells) is run on /repo and compared with the model inside Coq; oracles for values, dtype, "
+             "isolation of copies and graph/gradient intact on pass-through; mg.asarray and all 14 creation routines are compared with their NumPy namesakes; non-real dtypes rejected while tracking.",
+        design_ref="DESIGN.md 5 (C17)",
+        note="The creation routines and asarray are covered by differential testing against NumPy (a test), the construction lattice by the theorems + exhaustive correspondence. No axioms.",
+        technique="Coq proofs by case analysis on the decision model + exhaustive lattice correspondence by vm_compute + differential testing",
+    ),
 }
 
 NOT_YET = "check not built yet in this round (planned, see DESIGN.md section 8); not claimed until its theorem and correspondence exist"
